@@ -92,7 +92,7 @@ IPV4_MAX_PREFIX: int = 32  # longest IPv4 prefix
 IPV6_MAX_PREFIX: int = 128  # longest IPv6 prefix
 MAX_PACKET_LENGTH: int = 0xFFFF  # Maximum packet length (16-bit value)
 MAX_DSCP_VALUE: int = 0x3F  # Maximum DSCP value (6 bits, 0b00111111)
-MAX_TRAFFIC_CLASS: int = 0xFFFF  # Maximum traffic class value (16-bit)
+MAX_TRAFFIC_CLASS: int = 0xFF  # Maximum traffic class value (the IPv6 Traffic Class field is 8 bits, the component holds one octet)
 MAX_FLOW_LABEL: int = 0xFFFFF  # Maximum flow label value (20 bits)
 
 
